@@ -124,7 +124,8 @@ namespace
       std::size_t off[ 3 ] = { 0, 0, 0 };
       std::vector< frame > frames;
       std::vector< inv > invs;
-      bool tainted = false;  // a wrong window was reported: results of this run are consequences
+      bool tainted = false;          // a wrong window or a residue was reported: results of this run are consequences
+      bool residue_reported = false;  // an unrestored end was already reported in this run
       // description of the case for reports
       const char* ctx = "";
       const char* kind = "";
@@ -215,9 +216,13 @@ namespace
    template< std::size_t M, std::size_t N_, int K > struct ginfo< gr::outerg< M, N_, K > > { static constexpr int guard = 0; static constexpr std::size_t N = M; };
 
    template< typename In >
-   void check_restored( const In& in, const mon& m, const int guard, const char* ambient, const char* outcome )
+   void check_restored( const In& in, mon& m, const int guard, const char* ambient, const char* outcome )
    {
-      if( in.end() != ambient ) bviol( m, guard, std::string( "end-not-restored-after-" ) + outcome, "after the guarded rule ended (" + std::string( outcome ) + ") in.end() is at offset " + std::to_string( in.end() - m.base ) + ", before the guard it was at " + std::to_string( ambient - m.base ) );
+      if( in.end() != ambient ) m.tainted = true;
+      if( in.end() != ambient && !m.residue_reported ) {
+         m.residue_reported = true;
+         bviol( m, guard, std::string( "end-not-restored-after-" ) + outcome, "after the guarded rule ended (" + std::string( outcome ) + ") in.end() is at offset " + std::to_string( in.end() - m.base ) + ", before the guard it was at " + std::to_string( ambient - m.base ) );
+      }
    }
 
    template< typename Rule >
@@ -310,6 +315,7 @@ namespace
       m.frames.clear();
       m.invs.clear();
       m.tainted = false;
+      m.residue_reported = false;
       res r;
       g_cur = &m;
       try {
@@ -329,7 +335,8 @@ namespace
          r = res{ 5, 0, "" };
       }
       g_cur = nullptr;
-      if( in.end() != gb.end() ) bviol( m, 0, std::string( "end-not-restored-after-" ) + ( r.st == 1 ? "success" : r.st == 0 ? "local-failure" : "exception" ), "after parse() returned (" + show( r ) + ") in.end() is at offset " + std::to_string( in.end() - gb.begin() ) + " of " + std::to_string( gb.size ) );
+      if( in.end() != gb.end() ) m.tainted = true;
+      if( in.end() != gb.end() && !m.residue_reported ) bviol( m, 0, std::string( "end-not-restored-after-" ) + ( r.st == 1 ? "success" : r.st == 0 ? "local-failure" : "exception" ), "after parse() returned (" + show( r ) + ") in.end() is at offset " + std::to_string( in.end() - gb.begin() ) + " of " + std::to_string( gb.size ) );
       if( !m.frames.empty() ) V.violation( "C18", "C18|harness|frame-stack-not-empty", m.describe() );
       return r;
    }
@@ -444,13 +451,13 @@ namespace
       }
    }
 
-   void compare_inv( const mon& m, const inv& got, const int G, const std::size_t N, const std::size_t start, const expect& e )
+   bool compare_inv( const mon& m, const inv& got, const int G, const std::size_t N, const std::size_t start, const expect& e )
    {
       if( got.guard != G || got.N != N || got.start != start ) {
          bviol( m, G, "guarded-invocation-out-of-place", "expected the invocation of " + std::string( gname( G ) ) + "<" + std::to_string( N ) + "> at offset " + std::to_string( start ) + ", observed " + gname( got.guard ) + "<" + std::to_string( got.N ) + "> at " + std::to_string( got.start ) );
-         return;
+         return false;
       }
-      if( same( got.r, e.r ) ) return;
+      if( same( got.r, e.r ) ) return true;
       std::string cls;
       if( e.limit ) {
          if( got.r.st != 2 ) cls = "no-error-beyond-limit";
@@ -461,6 +468,7 @@ namespace
          cls = ( G == 0 ) ? "result-differs-from-unguarded-on-window" : "result-differs-from-unguarded-within-limit";
       }
       bviol( m, G, cls, "guarded invocation at offset " + std::to_string( start ) + ": model " + show( e.r ) + ", observed " + show( got.r ) );
+      return false;
    }
 
    struct bcase
@@ -512,13 +520,16 @@ namespace
                   V.count( "bytes-tainted-runs|" + std::string( c.ctx ) );
                   continue;
                }
+               bool invs_ok = true;
                if( m.invs.size() != exp_invs.size() ) {
+                  invs_ok = false;
                   bviol( m, c.G, "number-of-guarded-invocations", "model expects " + std::to_string( exp_invs.size() ) + " guarded invocations, observed " + std::to_string( m.invs.size() ) );
                }
                else {
-                  for( std::size_t i = 0; i < exp_invs.size(); ++i ) compare_inv( m, m.invs[ i ], exp_invs[ i ].first.guard, exp_invs[ i ].first.N, exp_invs[ i ].first.start, exp_invs[ i ].second );
+                  // innermost first; a difference in an inner invocation explains those of the enclosing ones
+                  for( std::size_t i = 0; i < exp_invs.size() && invs_ok; ++i ) invs_ok = compare_inv( m, m.invs[ i ], exp_invs[ i ].first.guard, exp_invs[ i ].first.N, exp_invs[ i ].first.start, exp_invs[ i ].second );
                }
-               if( !same( got, exp_overall ) ) bviol( m, c.G, "parse-result-differs-from-model", "whole parse: model " + show( exp_overall ) + ", observed " + show( got ) );
+               if( invs_ok && !same( got, exp_overall ) ) bviol( m, c.G, "parse-result-differs-from-model", "whole parse: model " + show( exp_overall ) + ", observed " + show( got ) );
             }
             const bool off0 = c.inner_at_begin;
             V.count( std::string( "bytes|" ) + gname( c.G ) + "|N" + std::to_string( N ) + "|" + oc + "|" + ( off0 ? "offset-zero" : "offset-nonzero" ), 2 );
@@ -589,7 +600,7 @@ namespace
             if( o + b.size() > MAXLEN ) continue;
             const std::string input = std::string( o, 'a' ) + b;
             if( part_on( 2 ) ) top_case( "top", 0, false, t_top, input, o );
-            if( part_on( 3 ) ) top_case( "top-caught", 0, true, t_catch, input, o );
+            if( part_on( 3 ) && ( V.thorough() || b.size() <= 4 ) ) top_case( "top-caught", 0, true, t_catch, input, o );
             if( part_on( 4 ) ) top_case( "top", 1, false, t_check, input, o );
          }
       }
@@ -624,11 +635,12 @@ namespace
       static const table_t t_nested5 = table_if< part_on( 7 ), c_nested5 >();
       const std::vector< std::string > bs = bodies( V.thorough() ? 6 : 4 );
       // rematch: input = 'a'*o1 . [ 'a'*o2 . body ] . trailer ; the bracketed part is the sub-input
-      static const std::size_t o1s[] = { 0, 1, 3 };
+      static const std::size_t o1s[] = { 0, 2, 1, 3 };
       static const char* const trailers[] = { "", "ab" };
-      for( const std::size_t o1 : o1s )
+      for( std::size_t i1 = 0; i1 < ( V.thorough() ? 4u : 2u ); ++i1 )
          for( const char* tr : trailers ) {
             if( !part_on( 5 ) ) break;
+            const std::size_t o1 = o1s[ i1 ];
             for( std::size_t o2 = 0; o2 <= 5; ++o2 )
                for( const std::string& b : bs ) {
                   const std::size_t hl = o2 + b.size();
@@ -653,7 +665,7 @@ namespace
          const std::size_t M = mi == 0 ? 2 : 5;
          const table_t& table = mi == 0 ? t_nested2 : t_nested5;
          for( std::size_t o1 = 0; o1 <= 2; ++o1 )
-            for( std::size_t o2 = 0; o2 <= 3; ++o2 )
+            for( std::size_t o2 = 0; o2 <= ( V.thorough() ? 3u : 2u ); ++o2 )
                for( std::size_t t = 0; t <= 3; t += 3 )
                   for( const std::string& b : bs ) {
                      if( o1 + o2 + b.size() + t > MAXLEN ) continue;
@@ -706,6 +718,7 @@ namespace
       std::size_t nest = 0;     // own count of active invocations of the guarded rule
       std::size_t maxnest = 0;
       std::size_t first_entry[ 40 ] = { 0 };  // byte position at which nesting level k was first entered
+      bool tainted = false;                    // the counter was seen wrong during this run: its result is a consequence
       const char* grammar = "";
       const std::string* input = nullptr;
 
@@ -719,8 +732,12 @@ namespace
       }
    };
 
-   void dviol( const dmon& m, const std::string& cls, const std::string& text )
+   void dviol( dmon& m, const std::string& cls, const std::string& text, const bool taints = false )
    {
+      if( taints ) {
+         if( m.tainted ) return;  // once per run
+         m.tainted = true;
+      }
       V.violation( "C18", "C18|limit_depth|" + cls, m.describe() + ": " + text, m.replay() );
    }
 
@@ -772,9 +789,9 @@ namespace
       static void start( const In& in, dmon& m )
       {
          if( m.guarded ) {
-            if( in.current_depth() != m.nest ) dviol( m, "counter-differs-from-nesting", "at the start of " + std::string( pegtl::demangle< Rule >() ) + " at byte " + std::to_string( in.byte() ) + " current_depth() is " + std::to_string( in.current_depth() ) + " with " + std::to_string( m.nest ) + " guarded invocations active" );
+            if( in.current_depth() != m.nest ) dviol( m, "counter-differs-from-nesting", "at the start of " + std::string( pegtl::demangle< Rule >() ) + " at byte " + std::to_string( in.byte() ) + " current_depth() is " + std::to_string( in.current_depth() ) + " with " + std::to_string( m.nest ) + " guarded invocations active", true );
             if constexpr( counted< Rule >::value ) {
-               if( m.nest > m.N ) dviol( m, "depth-exceeded", "guarded rule runs at nesting " + std::to_string( m.nest ) + " at byte " + std::to_string( in.byte() ) );
+               if( m.nest > m.N ) dviol( m, "depth-exceeded", "guarded rule runs at nesting " + std::to_string( m.nest ) + " at byte " + std::to_string( in.byte() ), true );
             }
          }
       }
@@ -809,6 +826,7 @@ namespace
    {
       m.nest = 0;
       m.maxnest = 0;
+      m.tainted = false;
       try {
          const bool ok = pegtl::parse< Grammar, dg::dact, dctl >( in, m );
          return ok ? res{ 1, in.byte(), "" } : res{ 0, 0, "" };
@@ -867,15 +885,18 @@ namespace
             const res got = table[ N ]( in, m );
             ++V.evaluations;
             const char* oc = st_name( got.st );
-            if( in.current_depth() != 0 ) dviol( m, std::string( "depth-not-restored-after-" ) + ( got.st >= 2 ? "exception" : oc ), "current_depth() = " + std::to_string( in.current_depth() ) + " after the run ended with " + show( got ) );
+            const bool residue = ( in.current_depth() != 0 );
+            if( residue ) dviol( m, std::string( "depth-not-restored-after-" ) + ( got.st >= 2 ? "exception" : oc ), "current_depth() = " + std::to_string( in.current_depth() ) + " after the run ended with " + show( got ) );
             if( m.nest != 0 ) V.violation( "C18", "C18|harness|nesting-count-not-zero", m.describe() );
-            if( !same( got, exp ) ) {
+            if( !m.tainted && !same( got, exp ) ) {
                std::string cls;
                if( round == 1 ) cls = "rerun-after-restart-differs";
                else if( beyond ) cls = ( got.st != 2 ) ? "no-error-beyond-limit" : ( got.msg != exp.msg ) ? "wrong-message" : "wrong-error-position";
                else cls = "result-differs-from-unguarded-within-limit";
                dviol( m, cls, "input needs nesting " + std::to_string( needed ) + ": expected " + show( exp ) + ( beyond ? "" : " (as without the guard)" ) + ", observed " + show( got ) + ( round == 1 ? " on the second run after restart()" : "" ) );
+               break;
             }
+            if( residue || m.tainted ) break;  // a second run would only show consequences
          }
          const char* rel = needed < N ? "below" : needed == N ? "at-limit" : needed == N + 1 ? "one-over" : "beyond";
          V.count( "depth|N" + std::to_string( N ) + "|" + rel + "|" + st_name( base.st ), 2 );
